@@ -18,9 +18,10 @@ EXTENDS Panacea
 
 VARIABLES
     acked,      \* history: records acknowledged so far [o,t,n,key,val,w,ts]
-    accepted    \* history: DID messages accepted so far (without the relaying account)
+    accepted,   \* history: DID messages accepted so far (without the relaying account)
+    delivered   \* history: every transaction delivered so far, in order: [tx, passed (got past the ante handler)]
 
-hist == <<acked, accepted>>
+hist == <<acked, accepted, delivered>>
 allvars == <<vars, hist>>
 
 IsDeliver(a)   == a.name = "Deliver"
@@ -44,8 +45,11 @@ NewAcks(a, h) == IF DeliverOk(a)
                  ELSE {}
 NewAccepted(a) == IF DeliverOk(a) THEN {StripFrom(a.tx.msgs[i]) : i \in {j \in MsgIdx(a) : IsDidMsg(a.tx.msgs[j])}} ELSE {}
 
+NewDelivered(a) == IF IsDeliver(a) THEN <<[tx |-> a.tx, passed |-> a.result # "ante"]>> ELSE <<>>
+
 HistNext == /\ acked' = acked \cup NewAcks(act', height)
             /\ accepted' = accepted \cup NewAccepted(act')
+            /\ delivered' = delivered \o NewDelivered(act')
 
 -----------------------------------------------------------------------------
 (* C01 - AOL records are append-only, immutable, densely numbered *)
@@ -173,6 +177,8 @@ C04_Step ==
           THEN LET r == DidChain(act'.tx.msgs, 1, d, Cell(didReg, d)) IN r.okk => Cell(didReg', d) = r.c
           ELSE Cell(didReg', d).seq = Cell(didReg, d).seq
     /\ DeliverOk(act') => \A i \in MsgIdx(act') : IsDidMsg(act'.tx.msgs[i]) => StripFrom(act'.tx.msgs[i]) \notin accepted
+    \* ... nor when the identical outer transaction bytes are delivered again
+    /\ act'.name = "Redeliver" => (act'.result # "ok" /\ didReg' = didReg)
 
 \* the sequence returned by the read operation is the one the next proof must be made over
 C04_View(v) ==
@@ -341,7 +347,7 @@ StatedPayer(tx) ==
          ELSE m.actor
 
 C15_Step ==
-    (IsDeliver(act') /\ AllCustom(act'.tx)) =>
+    /\ (IsDeliver(act') /\ AllCustom(act'.tx)) =>
         LET tx == act'.tx
             fee == tx.fee * FeeUnit
             p == StatedPayer(tx) IN
@@ -353,6 +359,8 @@ C15_Step ==
                                           + (IF a = FeeColl /\ d = "umed" THEN fee ELSE 0)
         \* if any message fails, none of the transaction's messages has any effect on AOL, DID or PNFT state
         /\ act'.result # "ok" => custom' = custom
+    \* a re-delivered copy of an already processed transaction costs nobody anything and changes nothing
+    /\ act'.name = "Redeliver" => (bal' = bal /\ supply' = supply /\ custom' = custom)
 
 -----------------------------------------------------------------------------
 (* C07 - the burn address is a sink *)
